@@ -204,8 +204,20 @@ def field_method_unit(out_given, bc_given):
             if out_given:
                 out = Instance(None, {"grid": Instance(None, {}, name="grid of out"), "data": Instance(None, {}, name="data of out"), "label": "old", "rank": rank_out}, name="caller's out")
                 it.builtins["isinstance"] = (lambda orig: (lambda o, c: True if (o is out and c is classes[rank_out]) else (False if o is out else orig(o, c))))(it.builtins["isinstance"])
+            # whether the output array may overlap the padded input (e.g. out is the field itself) is arbitrary
+            overlap = {"asked": [], "answer": None}
+
+            def may_share(a, b):
+                overlap["asked"].append((a, b))
+                overlap["answer"] = bool(it.ctx.branch(z3.Bool("output_array_may_overlap_the_padded_input")))
+                return overlap["answer"]
+
+            it.stub_modules["numpy"].attrs["may_share_memory"] = may_share
+            it.stub_modules["numpy"].attrs["shares_memory"] = may_share
+            it.stub_modules["numpy"].attrs["empty_like"] = lambda a, **kw: Instance(None, {}, name="temporary array")
+            out_data_before = out.attrs["data"] if out is not None else None
             r = it.call(it.getattr(field, "apply_operator"), ["the_operator"], {"bc": bc, "out": out, "label": "lbl", "args": args, "backend": "some backend", "option": 7})
-            return r, log, made, field, grid, full, info, op_token, backend, bc, args, out, rank_out, dtype
+            return r, log, made, field, grid, full, info, op_token, backend, bc, args, out, rank_out, dtype, overlap, out_data_before
 
         for p, res in enumerate(explore_paths(U, body)):
             P = prem_of(res.ctx)
@@ -213,7 +225,7 @@ def field_method_unit(out_given, bc_given):
             if res.outcome != "return":
                 U.prove(f"{nm}.returns_normally", P, z3.BoolVal(False), info={"exc": str(res.exc)})
                 continue
-            r, log, made, field, grid, full, info, op_token, backend, bc, args, out, rank_out, dtype = res.value
+            r, log, made, field, grid, full, info, op_token, backend, bc, args, out, rank_out, dtype, overlap, out_data_before = res.value
             kinds = [e[0] for e in log]
             ghosts = [e for e in log if e[0] == "ghost"]
             applies = [e for e in log if e[0] == "apply"]
@@ -228,6 +240,10 @@ def field_method_unit(out_given, bc_given):
             ok_apply = len(applies) == 1 and applies[0][1] is op_token and applies[0][2] is full and isinstance(r, Instance) and applies[0][3] is r.attrs.get("data")
             U.prove(f"{nm}.operator_reads_the_field's_padded_array_and_writes_the_data_of_the_returned_field", P, z3.BoolVal(bool(ok_apply)))
             if out_given:
+                # the kernels read neighbours of cells they have already written: never in place
+                U.prove(f"{nm}.operator_never_writes_an_array_that_may_overlap_its_input", P,
+                        z3.BoolVal(len(overlap["asked"]) >= 1 and len(applies) == 1 and (not overlap["answer"] or applies[0][3] is not out_data_before)),
+                        info={"replay_payload": {"out_alias": True}})
                 U.prove(f"{nm}.result_is_the_caller's_out_with_the_new_label_after_the_grid_check", P,
                         z3.BoolVal(r is out and not made and out.attrs.get("label") == "lbl" and any(e[0] == "grid_check" and e[1] is out.attrs["grid"] for e in log)))
             else:
